@@ -376,7 +376,8 @@ Proof.
   set (s := run c kn ops) in *. pose proof (Inv_run c kn ops : Inv s) as I.
   set (s1 := step c s (Advance (leecher_tti c))). pose proof (Inv_step c s (Advance (leecher_tti c)) I : Inv s1) as I1.
   set (s2 := step c s1 TickSend). pose proof (Inv_step c s1 TickSend I1 : Inv s2) as I2.
-  destruct (no_lost_call c kn ops W w Hw) as [H|[[t H]|(c0 & Hc & Hwc & _ & H)]].
+  change (exists r, In (w, r) (results (step c s2 ApTick))).
+  destruct (no_lost_call c kn ops W w Hw) as [H|[[t H]|(c0 & Hc & Hwc & _ & H)]]; fold s in H; try fold s in Hc.
   - apply in_map_iff in H. destruct H as [[w' r] [E H]]. cbn [fst] in E. subst w'. exists r.
     apply (results_step_mono c s2 ApTick I2). apply (results_step_mono c s1 TickSend I1).
     now apply (results_step_mono c s (Advance (leecher_tti c)) I).
@@ -393,6 +394,29 @@ Proof.
       destruct I as (K & _). unfold Core in K. destruct K as [_ Kc _ _ _ _ _ _].
       destruct (Kc c0 Hc) as (_ & _ & Hl). lia.
 Qed.
+
+(* the progress lemmas at the reachable states *)
+Theorem complete_answers_run c kn ops x w : let s := run c kn ops in
+  In (PComplete (c_disp x)) (pending s) -> In x (ctrls s) -> In w (c_errors x) ->
+  In (w, RNil) (results (step c s (ApComplete (c_disp x)))).
+Proof. cbv zeta. apply complete_answers. apply Inv_run. Qed.
+
+Theorem tick_answers_run c kn ops x w : let s := run c kn ops in
+  In PTick (pending s) -> In x (ctrls s) ->
+  tor_complete s (c_disp x) = false -> leecher_tti c <= now s - c_lastw x -> In w (c_errors x) ->
+  In (w, RTimeout) (results (step c s ApTick)).
+Proof. cbv zeta. apply tick_answers. apply Inv_run. Qed.
+
+Theorem remove_answers_run c kn ops x w : let s := run c kn ops in
+  In (PRemove (c_hash x)) (pending s) -> In x (ctrls s) -> In w (c_errors x) ->
+  In (w, RRemoved) (results (step c s (ApRemove (c_hash x)))).
+Proof. cbv zeta. apply remove_answers. apply Inv_run. Qed.
+
+Theorem shutdown_answers_run c kn ops w : let s := run c kn ops in
+  In PShutdown (pending s) ->
+  In w (all_waiters (ctrls s)) \/ In w (pending_callers (pending s)) ->
+  In (w, RStopped) (results (step c s ApShutdown)) /\ stopped (step c s ApShutdown) = true.
+Proof. cbv zeta. apply shutdown_answers. apply Inv_run. Qed.
 
 (* ---------- T6: the executable check accepts what the model does ---------- *)
 Theorem check_sound c kn ops : C17_check c kn ops (model_obs (run c kn ops) ops) = true.
